@@ -183,12 +183,6 @@ def run(prog, tier) -> Result:
     res.ob("R08.1b", "Money", "declared without reference unit", not bad, f"class keywords {sorted(money.class_kwds)}",
            sig="Money declares a reference unit or definition", nontrivial=False)
     mnu = prog.method("MoneyMeta", "new_unit")
-    sup = [n for n in ast.walk(mnu.node) if isinstance(n, ast.Call) and isinstance(n.func, ast.Attribute)
-           and n.func.attr == "new_unit" and src_of(n.func.value) == "super()"]
-    ok = len(sup) == 1 and len(sup[0].args) <= 2 and not any(k.arg == "define_as" for k in sup[0].keywords)
-    res.ob("R08.1b", "MoneyMeta.new_unit", "currencies are created without definition", ok,
-           src_of(sup[0]) if sup else "no super().new_unit call", sig="currency created with a definition",
-           nontrivial=False)
 
     tag_order_rules(prog, res)
     from .c05 import quantum_cases, ctor_cases
@@ -224,6 +218,10 @@ def run(prog, tier) -> Result:
             v = o.value
             if not isinstance(v, ObjV) or v.ci is None or v.ci.name != "Currency":
                 return ("new_unit does not return a Currency", repr(v))
+            # currencies are base units: no definition, no scale (hence no factor between currencies)
+            if not isinstance(v.fields.get("_definition"), NoneV) or not isinstance(v.fields.get("_equiv"), NoneV):
+                return ("currency created with a definition",
+                        f"definition {v.fields.get('_definition')!r}, scale {v.fields.get('_equiv')!r}")
             sf = v.fields.get("_smallest_fraction")
             if not isinstance(sf, Num):
                 return ("smallest fraction not stored", repr(sf))
